@@ -307,7 +307,8 @@ def _populate_expr_impl_map(extend_context: bool) -> Dict[int, Dict[str, Callabl
         "median": lambda x: x.median(),
         "min": lambda x: x.min(),
         "month": lambda x: x.month(),
-        "nunique": lambda x: x.n_unique(),
+        # missing is not a value (COUNT(DISTINCT x), Pandas nunique); signed result, so that arithmetic on it can not wrap
+        "nunique": lambda x: x.drop_nulls().n_unique().cast(pl.Int64),
         "quarter": lambda x: x.quarter(),
         "rank": lambda x: x.rank(),
         "round": lambda x: x.round(decimals=0),
